@@ -80,6 +80,8 @@ def run(ctx):
     tmp = tempfile.mkdtemp(prefix='verif-c04-')
     for k in range(nh):
         text = make_file(rng, 'wild' if k % 4 == 3 else 'plain')
+        if k % 7 == 2:
+            text = ec.duplicate_file(rng)       # residues whose atoms have identical text lines
         if k % 5 == 1:
             main, text = with_include(make_file(rng, 'plain'), rng, tmp)
             st, inn, shx = im.read_text(None, 'quiet', path=main)
@@ -106,6 +108,12 @@ def run(ctx):
                 continue
             ophist[name] = ophist.get(name, 0) + 1
             ev += 1
+            file_atoms = [id(e.obj) for e in h.ents if e.kind == 'atom']
+            if file_atoms != [id(a) for a in shx.atoms.all_atoms]:
+                common.add_violation(ctx, 'after an edit the atom list no longer holds exactly the atoms of the file, in file order (first difference after: %s)' % name,
+                                     {'text': text, 'history': h.log}, len(file_atoms), [a.fullname for a in shx.atoms.all_atoms][:12])
+                ok = False
+                break
             got, w = ec.written_tokens(shx)
             exp = ec.expected_tokens(h.ents)
             if got != exp:
